@@ -416,16 +416,26 @@ fn restore_flow(
     let (be2, schema2) = new_backend(Some(path));
     let re = dump_be(&be2);
     let qs = QueryServer::new(be2, schema2, "example.com".to_string(), Duration::from_nanos(ct)).expect("qs");
-    let init = rt.block_on(qs.initialise_helper(Duration::from_nanos(ct), DOMAIN_TGT_LEVEL));
-    let (verify_errs, answers) = if init.is_ok() {
-        let answers = answer(rt, &qs, qsn);
-        let v = rt.block_on(qs.verify());
-        if !v.is_empty() {
-            eprintln!("verify after restore: {:?}", v);
+    // an implementation panic (kanidm's consistency checks debug_assert) is an observation, not a crash
+    let init = std::panic::catch_unwind(AssertUnwindSafe(|| {
+        rt.block_on(qs.initialise_helper(Duration::from_nanos(ct), DOMAIN_TGT_LEVEL))
+    }));
+    let (verify_errs, answers) = if matches!(init, Ok(Ok(()))) {
+        let answers = std::panic::catch_unwind(AssertUnwindSafe(|| answer(rt, &qs, qsn))).unwrap_or_default();
+        match std::panic::catch_unwind(AssertUnwindSafe(|| rt.block_on(qs.verify()))) {
+            Ok(v) => {
+                if !v.is_empty() {
+                    eprintln!("verify after restore: {:?}", v);
+                }
+                (v.len() as u64, answers)
+            }
+            Err(_) => {
+                eprintln!("verify after restore PANICKED");
+                (998, answers)
+            }
         }
-        (v.len() as u64, answers)
     } else {
-        eprintln!("initialise after restore failed: {:?}", init);
+        eprintln!("initialise after restore failed: {:?}", init.as_ref().map_err(|_| "panic"));
         (999, vec![])
     };
     drop(qs);
